@@ -385,21 +385,23 @@ def run(ctx, replay=None):
 CLAIMED = True
 TECHNIQUE = ("Lean 4 proof: hand model (generic in the bit width, C++ promotions/conversions/UB explicit) = arithmetic spec "
              "for all values; model tied to the code by exhaustive 8/16-bit + boundary/random 32/64-bit correspondence run")
-LEVEL_TEXT = ("popcount (fallback), countl_zero, bit_width, bit_floor, bit_ceil, rotl, rotr, test_bit, add_sat (builtin and fallback "
-              "path), div_sat, saturate_cast, midpoint, gcd, lcm, abs (both), idiv, ipow<2>, ilog2, the six cmp_* and in_range are "
-              "proved in Lean 4, for every bit width w / every pair of integer types and every argument of the documented domain, "
-              "to return (never an error = never UB, never an overflow-dependent value) exactly the value of their mathematical "
-              "definition; the remaining functions (coverage.correspondence_only) are compared differentially only. The model is tied "
+LEVEL_TEXT = ("every modelled function — popcount (fallback), countl_zero, countl_one, countr_zero, countr_one, bit_width, bit_floor, "
+              "bit_ceil, has_single_bit, rotl, rotr, test_bit, set_bit (both overloads), reset_bit, flip_bit, byteswap and its "
+              "16/32/64-bit fallbacks, ntoh, hton, add_sat (builtin and fallback path), div_sat, saturate_cast, midpoint, gcd, lcm, "
+              "abs (both), idiv, ipow, ipow<2>, ilog2, the six cmp_* and in_range — is proved in Lean 4, for every bit width w / every "
+              "pair of integer types (byteswap/ntoh: every overload that exists) and every argument of the documented domain, "
+              "to return (never an error = never UB, never an overflow-dependent value) exactly the value of its mathematical "
+              "definition (byteswap/ntoh/hton: the byte-reversed value; ipow: the exact power whenever it is representable). "
+              "The model is tied "
               "to the current source on every run by running model and implementation (builtin and portable-fallback paths) on "
               "the same inputs under ASan/UBSan: all 8-bit values and pairs, all 16-bit values, boundary/random 32/64-bit "
               "values, rotation counts -130..130, all 100 type pairs for the mixed-type functions; the spec is validated "
               "against libstdc++ and __int128 arithmetic on the same inputs.")
 LEVEL_NOTE = ("Trusted: Lean kernel + propext/Classical.choice/Quot.sound; the hand model's fidelity outside the explored inputs; "
-              "g++-12/ASan/UBSan; compiler builtins; libstdc++ as oracle for spec validation. Functions without a theorem yet "
-              "are listed in evidence coverage.correspondence_only and are covered by the differential run only.")
-# functions modelled and compared on every run but without a Lean theorem yet
-CORRESPONDENCE_ONLY = ["countl_one", "countr_zero", "countr_one", "has_single_bit", "byteswap", "byteswap_fallback",
-                       "set_bit", "reset_bit", "flip_bit", "ipow", "ntoh", "hton"]
+              "g++-12/ASan/UBSan; compiler builtins; libstdc++ as oracle for spec validation. coverage.correspondence_only is empty: "
+              "every modelled function has a theorem.")
+# functions modelled and compared on every run but without a Lean theorem yet (none left)
+CORRESPONDENCE_ONLY = []
 THEOREMS = {
     "popcount": ["C14.Props.popcount_eq"], "popcount_fb": ["C14.Props.popcountFallback_eq"],
     "countl_zero": ["C14.Props.countlZero_eq"], "bit_width": ["C14.Props.bitWidth_eq"],
@@ -412,4 +414,10 @@ THEOREMS = {
             "C14.Props.cmpLessEqual_eq", "C14.Props.cmpGreaterEqual_eq"],
     "test_bit": ["C14.Props.testBit_eq"], "ipow2": ["C14.Props.ipow2_eq"],
     "in_range": ["C14.Props.inRange_eq"], "saturate_cast": ["C14.Props.saturateCast_eq"],
+    "countl_one": ["C14.Props.countlOne_eq"], "countr_zero": ["C14.Props.countrZero_eq"],
+    "countr_one": ["C14.Props.countrOne_eq"], "has_single_bit": ["C14.Props.hasSingleBit_eq"],
+    "set_bit": ["C14.Props.setBit_eq"], "set_bit_1": ["C14.Props.setBitTo_eq"], "set_bit_0": ["C14.Props.setBitTo_eq"],
+    "reset_bit": ["C14.Props.resetBit_eq"], "flip_bit": ["C14.Props.flipBit_eq"],
+    "byteswap": ["C14.Props.byteswap_eq"], "byteswap_fb": ["C14.Props.byteswapFallback_eq"],
+    "ntoh": ["C14.Props.ntoh_eq"], "hton": ["C14.Props.hton_eq"], "ipow": ["C14.Props.ipow_eq"],
 }
